@@ -501,6 +501,11 @@ fn stress(run: &mut Run, threads: usize, ops_per_thread: usize, seed: u64) {
 }
 
 pub fn main(args: &Args) -> ! {
+    if let Some(n) = std::env::var("AQV_C04_LITMUS").ok().and_then(|s| s.parse::<usize>().ok()) {
+        let rep = crate::lock_litmus::explore(n, 64);
+        println!("litmus {} threads: states={} transitions={} depth={} blocked_observations={} ambiguous={} reruns={} discrepancies={:?}", n, rep.states, rep.transitions, rep.max_depth, rep.blocked_observations, rep.ambiguous, rep.reruns, rep.discrepancies.iter().take(3).collect::<Vec<_>>());
+        std::process::exit(0);
+    }
     let mut run = Run::new(args, "model_checking");
     run.set("engine", "coop: baton scheduler over real OS threads, scheduling points at every acquire / upgrade / release of aquatic_udp::swarm's RwLocks (hook H3), mirror lock table with parking_lot's rules, stateless DFS with prefix replay");
     run.assume("sequential consistency (the baton serialises everything); weak-memory reorderings are outside this check");
